@@ -86,6 +86,21 @@ fn derive_accept_key(request_key: &[u8]) -> String {
     base64::engine::general_purpose::STANDARD.encode(&sha1.finalize())
 }
 
+/// Returns whether `token` (compared case-insensitively) is an element of the
+/// list-valued header `name`.  The list may be spread over several header
+/// lines, and elements may be surrounded by optional whitespace (spaces or
+/// horizontal tabs).
+fn header_list_contains(
+    headers: &http::HeaderMap,
+    name: http::HeaderName,
+    token: &str,
+) -> bool {
+    headers.get_all(name).iter().filter_map(|hv| hv.to_str().ok()).any(|hv| {
+        hv.split(|c| c == ',' || c == ' ' || c == '\t')
+            .any(|elem| elem.eq_ignore_ascii_case(token))
+    })
+}
+
 /// This `ExclusiveExtractor` implementation constructs an instance of
 /// `WebsocketUpgrade` from an HTTP request, and returns an error if the given
 /// request does not contain websocket upgrade headers.
@@ -95,32 +110,22 @@ impl ExclusiveExtractor for WebsocketUpgrade {
         rqctx: &RequestContext<Context>,
         request: hyper::Request<Body>,
     ) -> Result<Self, HttpError> {
-        if !request
-            .headers()
-            .get(header::CONNECTION)
-            .and_then(|hv| hv.to_str().ok())
-            .map(|hv| {
-                hv.split(|c| c == ',' || c == ' ')
-                    .any(|vs| vs.eq_ignore_ascii_case("upgrade"))
-            })
-            .unwrap_or(false)
-        {
+        if !header_list_contains(
+            request.headers(),
+            header::CONNECTION,
+            "upgrade",
+        ) {
             return Err(HttpError::for_bad_request(
                 None,
                 "expected connection upgrade".to_string(),
             ));
         }
 
-        if !request
-            .headers()
-            .get(header::UPGRADE)
-            .and_then(|v| v.to_str().ok())
-            .map(|v| {
-                v.split(|c| c == ',' || c == ' ')
-                    .any(|v| v.eq_ignore_ascii_case("websocket"))
-            })
-            .unwrap_or(false)
-        {
+        if !header_list_contains(
+            request.headers(),
+            header::UPGRADE,
+            "websocket",
+        ) {
             return Err(HttpError::for_bad_request(
                 None,
                 "unexpected protocol for upgrade".to_string(),
